@@ -17,6 +17,7 @@ type State struct {
 	alloc *Term            // allocation counter (Int)
 	iters map[ssa.Value]*iterState
 	ghost map[string]*Term // ghost scalars (loglen)
+	nEvents int            // number of havoc events that precede this state (lazy materialisation replays only those)
 }
 
 type iterState struct {
@@ -30,7 +31,7 @@ type iterState struct {
 }
 
 func (s *State) clone() *State {
-	n := &State{heap: make(map[string]*Term, len(s.heap)), alloc: s.alloc, iters: make(map[ssa.Value]*iterState, len(s.iters))}
+	n := &State{heap: make(map[string]*Term, len(s.heap)), alloc: s.alloc, iters: make(map[ssa.Value]*iterState, len(s.iters)), nEvents: s.nEvents}
 	for k, v := range s.heap {
 		n.heap[k] = v
 	}
@@ -276,7 +277,11 @@ func (u *Unit) heapGet(st *State, key string, sort *Sort) *Term {
 		return a
 	}
 	arr := u.c.Const("H0_"+sanitizeSym(key), sort)
-	for _, ev := range u.events {
+	n := st.nEvents
+	if n > len(u.events) {
+		n = len(u.events)
+	}
+	for _, ev := range u.events[:n] {
 		arr = u.c.Ite(ev.guard, u.eventArr(ev, key, arr), arr)
 	}
 	st.heap[key] = arr
@@ -386,6 +391,7 @@ func (u *Unit) havoc(st *State, guard *Term, fr *FrameSpec) {
 		st.heap[k] = u.eventArr(ev, k, st.heap[k])
 	}
 	u.events = append(u.events, ev)
+	st.nEvents = len(u.events)
 	// objects may have been allocated
 	na := u.c.Fresh("alloc", SInt)
 	u.c.allocBase[na.id] = true
@@ -416,6 +422,11 @@ func (u *Unit) mergeStates(edges []edge) (*Term, *State) {
 	}
 	pc := c.Or(guards...)
 	st := &State{heap: map[string]*Term{}, iters: map[ssa.Value]*iterState{}}
+	for _, e := range edges {
+		if e.st.nEvents > st.nEvents {
+			st.nEvents = e.st.nEvents
+		}
+	}
 	keys := map[string]*Sort{}
 	for _, e := range edges {
 		for k, v := range e.st.heap {
